@@ -298,7 +298,7 @@ class Gen:
         # observers move with the signals of their host: a move must not put an observer that resets q's binding on q itself
         # (the binding would be destroyed inside the notification it is delivering: outside every quantifier)
         forbidden = {q for host, q in self.robs if host == s}
-        if (r.random() < 0.5 or self.interleaved) and len(self.props) < 12:
+        if r.random() < 0.5 and len(self.props) < 12:
             d = self.next_prop
             self.next_prop += 1
             self.emit(f"pmovector {s} {d}")
@@ -308,16 +308,18 @@ class Gen:
             self.props[d] = dict(rank=self.props[s]['rank'], bound=self.props[s]['bound'], mode=self.props[s].get('mode'),
                                  inputs=self.props[s].get('inputs', []))
             self.props[s]['bound'] = False
-        elif self.interleaved:
-            return
         else:
             rd = self.read_props() if self.inside else set()
+            if self.interleaved and self.props[s]['bound']:
+                # writing observers exist meanwhile: one that assigns the destination would find it bound afterwards
+                rd = rd | set(self.wtargets)
             d = self.pick(lambda p, _: p != s and p not in forbidden and p not in rd)
             if d is None:
                 return
             self.emit(f"pmoveassign {d} {s}")
             self.robs = [ro for ro in self.robs if ro[0] != d]      # the observers of the overwritten property are gone
             self.ahosts.discard(d)
+            self.about_hosts.discard(d)
             for ro in self.robs:
                 if ro[0] == s:
                     ro[0] = d
